@@ -26,6 +26,26 @@ func cleanContour(c Contour) []Pt {
 	return out
 }
 
+// cleanMarked is cleanContour carrying the junction marks along (a dropped duplicate passes its mark to the kept point).
+func cleanMarked(c Contour, junction [][]bool, ci int) ([]Pt, []bool) {
+	var out []Pt
+	var marks []bool
+	for j, p := range c.Pts {
+		m := junction == nil || ci >= len(junction) || j >= len(junction[ci]) || junction[ci][j]
+		if len(out) > 0 && out[len(out)-1] == p {
+			marks[len(marks)-1] = marks[len(marks)-1] || m
+			continue
+		}
+		out = append(out, p)
+		marks = append(marks, m)
+	}
+	if c.Closed && len(out) > 1 && out[0] == out[len(out)-1] {
+		marks[0] = marks[0] || marks[len(marks)-1]
+		out, marks = out[:len(out)-1], marks[:len(marks)-1]
+	}
+	return out, marks
+}
+
 func inTriangle(p, a, b, c Pt) bool {
 	// a (numerically) degenerate triangle has no interior: its cross products are rounding noise
 	if area := b.Sub(a).Cross(c.Sub(a)); math.Abs(area) <= 1e-9*(b.Sub(a).Len()+c.Sub(a).Len()+1e-300)*(b.Sub(a).Len()+c.Sub(a).Len()+1e-300) {
@@ -82,11 +102,50 @@ func inJoin(p, a, v, b Pt, st StrokeStyle) bool {
 	return inTriangle(p, c1, tip, c2)
 }
 
+// FlattenJunctions is Flatten plus, per contour, which points are junctions between two path commands (true) and which are
+// interior points of a flattened curve (false). A join style applies at junctions only; inside a curve the stroke is the
+// offset of a smooth curve, which the polyline model renders with round joins.
+func FlattenJunctions(segs []Seg, n int) ([]Contour, [][]bool) {
+	var out []Contour
+	var marks [][]bool
+	cur := -1
+	for _, s := range segs {
+		if s.Cmd == CmdMove {
+			out = append(out, Contour{Pts: []Pt{s.End}})
+			marks = append(marks, []bool{true})
+			cur = len(out) - 1
+			continue
+		}
+		if cur < 0 {
+			out = append(out, Contour{Pts: []Pt{s.Start}})
+			marks = append(marks, []bool{true})
+			cur = len(out) - 1
+		}
+		pl := s.Polyline(n)
+		for i := 1; i < len(pl); i++ {
+			out[cur].Pts = append(out[cur].Pts, pl[i])
+			marks[cur] = append(marks[cur], i == len(pl)-1)
+		}
+		if s.Cmd == CmdClose {
+			out[cur].Closed = true
+			cur = -1
+		}
+	}
+	return out, marks
+}
+
 // InStroke reports whether p lies in the region the stroke of the polylines paints (the union of the segment
 // rectangles, the joins at interior vertices and the caps at open ends). Contours come from Flatten.
 func InStroke(cs []Contour, st StrokeStyle, p Pt) bool {
-	for _, c := range cs {
-		pts := cleanContour(c)
+	return InStrokeJunctions(cs, nil, st, p)
+}
+
+// InStrokeJunctions: as InStroke; junction[i][j] = false makes vertex j of contour i a round join (nil: every vertex is a junction).
+func InStrokeJunctions(cs []Contour, junction [][]bool, st StrokeStyle, p Pt) bool {
+	round := st
+	round.Join = "round"
+	for ci, c := range cs {
+		pts, isJ := cleanMarked(c, junction, ci)
 		n := len(pts)
 		if n < 2 {
 			continue
@@ -106,13 +165,21 @@ func InStroke(cs []Contour, st StrokeStyle, p Pt) bool {
 		}
 		if c.Closed {
 			for i := 0; i < n; i++ {
-				if inJoin(p, pts[(i+n-1)%n], pts[i], pts[(i+1)%n], st) {
+				js := st
+				if !isJ[i] {
+					js = round
+				}
+				if inJoin(p, pts[(i+n-1)%n], pts[i], pts[(i+1)%n], js) {
 					return true
 				}
 			}
 		} else {
 			for i := 1; i+1 < n; i++ {
-				if inJoin(p, pts[i-1], pts[i], pts[i+1], st) {
+				js := st
+				if !isJ[i] {
+					js = round
+				}
+				if inJoin(p, pts[i-1], pts[i], pts[i+1], js) {
 					return true
 				}
 			}
